@@ -45,6 +45,8 @@ type pdfFont struct {
 	cidKeyed bool
 	tu       *pdfread.ToUnicodeMap
 	probs    []pdfread.Problem
+	bfrange  bool // the ToUnicode CMap has a bfrange section
+	wRange   bool // the W array has a "first last width" group
 }
 
 func (f *pdfFont) CodeBytes() int   { return 2 } // Identity-H and Identity-V: two-byte codes, CID = code
@@ -104,6 +106,15 @@ func readFont(d *pdfread.Doc, name pdfread.Name, v pdfread.Object) *pdfFont {
 	} else {
 		pf.progErr = "no embedded font program"
 	}
+	if arr, ok := d.Resolve(pf.t0.CIDFont["W"]).(pdfread.Array); ok {
+		for i := 0; i+1 < len(arr); i++ {
+			_, a := arr[i].(int64)
+			_, b := arr[i+1].(int64)
+			if a && b {
+				pf.wRange = true
+			}
+		}
+	}
 	if pf.t0.ToUnicode != nil {
 		b, err := pf.t0.ToUnicode.Decode()
 		if err != nil {
@@ -111,6 +122,7 @@ func readFont(d *pdfread.Doc, name pdfread.Name, v pdfread.Object) *pdfFont {
 		} else {
 			pf.tu = pdfread.ParseToUnicode(b)
 			pf.probs = append(pf.probs, pf.tu.Problems...)
+			pf.bfrange = bytes.Contains(b, []byte("beginbfrange"))
 		}
 	}
 	return pf
@@ -175,6 +187,37 @@ type docModel struct {
 	pages  [][]drawL
 }
 
+// mixedDirections reports whether some font is laid out both with horizontal and with vertical
+// glyphs in the document.
+func (m *docModel) mixedDirections() bool {
+	type dirs struct{ h, v bool }
+	seen := map[*fontSrc]*dirs{}
+	for _, pg := range m.pages {
+		for _, dr := range pg {
+			for _, sp := range dr.spans {
+				for _, g := range sp.glyphs {
+					d := seen[sp.src]
+					if d == nil {
+						d = &dirs{}
+						seen[sp.src] = d
+					}
+					if g.vertical {
+						d.v = true
+					} else {
+						d.h = true
+					}
+				}
+			}
+		}
+	}
+	for _, d := range seen {
+		if d.h && d.v {
+			return true
+		}
+	}
+	return false
+}
+
 // checkPDF validates one document against the layouts that were rendered into it. It returns the
 // findings and a key that identifies the document up to clock-dependent bytes.
 func checkPDF(data []byte, m *docModel, r *fw.R) (*findings, [20]byte) {
@@ -215,6 +258,12 @@ func checkPDF(data []byte, m *docModel, r *fw.R) (*findings, [20]byte) {
 			if !ok {
 				pf = readFont(d, pdfread.Name(n), v)
 				fonts[ref] = pf
+				if pf.bfrange {
+					r.Outcome("notation:ToUnicode-bfrange")
+				}
+				if pf.wRange {
+					r.Outcome("notation:W-first-last-width")
+				}
 				fmt.Fprintf(h, "|%s|", pf.describe())
 				if pf.tu != nil {
 					ks := make([]int, 0, len(pf.tu.Map))
@@ -413,7 +462,10 @@ func checkPDF(data []byte, m *docModel, r *fw.R) (*findings, [20]byte) {
 				gotX, gotY := sh.Tx/sh.Size*em, sh.Ty/sh.Size*em
 				wantX, wantY := em*float64(g.xadv)/float64(sp.upem), em*float64(g.yadv)/float64(sp.upem)
 				errAdv := math.Max(math.Abs(gotX-wantX), math.Abs(gotY-wantY))
-				r.Max("pen displacement error (1/1000 em)", errAdv)
+				r.Max(fmt.Sprintf("pen displacement error, writing mode %d (1/1000 em)", sh.Mode), errAdv)
+				if sh.AdjAfter > 0 {
+					r.Max("pen displacement error after a pen-back (positive) TJ number (1/1000 em)", errAdv)
+				}
 				if errAdv > 1+1e-6 {
 					class := "pen-advance"
 					fontW := sh.W
@@ -482,6 +534,30 @@ func checkPDF(data []byte, m *docModel, r *fw.R) (*findings, [20]byte) {
 		}
 	}
 	r.Count("glyphs shown and checked", int64(glyphsChecked))
+	// One root cause, one class: when a document writes the same font both horizontally and
+	// vertically (decided from the input), wrong glyphs, widths, ToUnicode entries and advances
+	// of that document are reported once, under a class of their own.
+	if m.mixedDirections() {
+		var kept []finding
+		var first *finding
+		n := 0
+		for i := range f.list {
+			switch f.list[i].class {
+			case "glyph-outline", "glyph-selection", "width-array", "tounicode", "pen-advance", "glyph-advance-embedded", "glyph-outline:exact-reader":
+				if first == nil {
+					first = &f.list[i]
+				}
+				n++
+			default:
+				kept = append(kept, f.list[i])
+			}
+		}
+		if first != nil {
+			kept = append(kept, finding{"codes-reassigned:font-written-horizontally-and-vertically",
+				fmt.Sprintf("the document writes one font with horizontal and with vertical (upright) glyphs, i.e. through two font objects; %d clauses fail for it (glyph, width, ToUnicode, advance), the first: [%s] %s", n, first.class, first.detail)})
+		}
+		f.list = kept
+	}
 	copy(key[:], h.Sum(nil))
 	return f, key
 }
@@ -495,4 +571,3 @@ func clipS(s string, n int) string {
 	return fmt.Sprintf("%q", s)
 }
 
-var _ = bytes.Equal
